@@ -563,8 +563,8 @@ class Memory():
         id = cmd
         (addr, status) = struct.unpack('<IB', payload[0:5])
         logger.debug('WRITE: Mem={}, addr=0x{:X}, status=0x{}'.format(id, addr, status))
-        # Find the write request
-        if id in self._write_requests:
+        # Find the write request (none if this is a duplicated or late acknowledgement)
+        if id in self._write_requests and len(self._write_requests[id]) > 0:
             self._write_requests_lock.acquire()
             do_call_sucess_cb = False
             do_call_fail_cb = False
